@@ -56,6 +56,30 @@ theorem firstFailing_some {reg : Registry} {m : Msg} {fs : List Fact} {f : Fact}
       simp only [if_true] at h
       exact ⟨List.mem_cons_of_mem _ (ih h).1, (ih h).2⟩
 
+/-! ### the lookup is by exact denom -/
+theorem getEntry_denom {reg : Registry} {d : String} {e : Entry} (h : getEntry reg d = some e) : e.denom = d := by
+  induction reg with
+  | nil => cases h
+  | cons x xs ih =>
+    simp only [getEntry] at h
+    split at h
+    · cases h; assumption
+    · exact ih h
+
+theorem getEntry_mem {reg : Registry} {d : String} {e : Entry} (h : getEntry reg d = some e) : e ∈ reg := by
+  induction reg with
+  | nil => cases h
+  | cons x xs ih =>
+    simp only [getEntry] at h
+    split at h
+    · cases h; exact List.mem_cons_self
+    · exact List.mem_cons_of_mem _ (ih h)
+
+theorem getEntry_none_of_no_denom {reg : Registry} {d : String} (h : ∀ e ∈ reg, e.denom ≠ d) : getEntry reg d = none := by
+  cases hg : getEntry reg d with
+  | none => rfl
+  | some e => exact absurd (getEntry_denom hg) (h e (getEntry_mem hg))
+
 /-! ### registry edits -/
 theorem getEntry_setToken_same (reg : Registry) (e : Entry) : getEntry (setToken reg e) e.denom = some e := by
   induction reg with
